@@ -21,7 +21,7 @@ RULE = (
     "width from the minimum the statement allows up to 200; indentation 0-8; ANSI and plain formatter. Clauses: no "
     "exception; every line <= W; rectangle (equal widths for styles with a visible right edge, <= common width otherwise); "
     "vertical borders at the same offsets on every row line and columns' characters inside their span; per-column text "
-    "Also: a style added to the formatter after the I/O was built, used in cells; rows of the wrong size are refused and leave the table as it was. "
+    "Also: a custom border style with three different vertical border characters (their roles are read off every row line); a style added to the formatter after the I/O was built, used in cells; rows of the wrong size are refused and leave the table as it was. "
     "top-to-bottom equals the cells' text; header and rows unchanged. non-trivial = at least one column wrapped (natural "
     "width exceeds the available width); distinct by (shape, length-class vector, W, style, alignments)."
 )
@@ -91,7 +91,7 @@ PROFILES = {
     "near-threshold": lambda rng, n: [rng.choice(["mid", "w5"]) for _ in range(n)],
     "mixed": lambda rng, n: [rng.choice(["empty", "w1", "w5", "w40", "long", "mid"]) for _ in range(n)],
 }
-STYLES = ["ascii", "solid", "borderless", "compact"]
+STYLES = ["ascii", "solid", "borderless", "compact", "custom"]  # custom: the ascii style with three different vertical border characters
 
 
 class Lab(object):
@@ -113,7 +113,11 @@ class Lab(object):
             out.formatter.add_style(Style("hl").fg("black").bg("yellow"))
 
     def style(self, name, padding, aligns):
-        st = getattr(self.TableStyle, name)()
+        if name == "custom":
+            st = self.TableStyle.ascii()
+            st.border_style.line_vl_char, st.border_style.line_vc_char, st.border_style.line_vr_char = "[", "!", "]"
+        else:
+            st = getattr(self.TableStyle, name)()
         if padding != " ":
             st.padding_char = padding
         A = self.Alignment
@@ -128,6 +132,8 @@ def border_chars(name):
         return "|", "|", "|", 1
     if name == "solid":
         return "│", "│", "│", 1
+    if name == "custom":
+        return "[", "!", "]", 1
     return "", " ", "", 0
 
 
@@ -394,7 +400,11 @@ def judge(sh, lab, case):
     if r_ch != "":
         border_pos = None
         for l in row_lines:
-            pos = [i for i, ch in enumerate(l) if ch == c_ch]
+            pos = [i for i, ch in enumerate(l) if ch in (l_ch, c_ch, r_ch)]
+            roles = "".join(l[i] for i in pos)
+            if len(pos) == n + 1 and roles != l_ch + c_ch * (n - 1) + r_ch:
+                sh.violate("column-span", case, "the vertical borders of a row line read %r, the style says %r" % (roles, l_ch + c_ch * (n - 1) + r_ch))
+                return
             if border_pos is None:
                 border_pos = pos
             elif pos != border_pos:
